@@ -27,11 +27,11 @@ def measureF (method : String) (n : Nat) (V : List (List Float)) (x y : List Flo
   | "spearman" => pure (ofFloat (spearman x y))
   | "kendall" | "tau-b" => pure (ofOpt ofFloat (tauB x y))
   | "tau-a" => pure (ofFloat (tauA x y))
-  | "rho-a" => pure (ofFloat (rhoA x y))
+  | "rho-a" => pure (ofFloat (rhoACoded x y))
   | "cosine_cov" => pure (ofOpt ofFloat (whitenedCos V x y))
   | "corr_cov" => pure (ofOpt ofFloat (whitenedCorr V x y))
-  | "cosine_cov_fast" => pure (ofFloat (whitenedCosFast n x y))
-  | "corr_cov_fast" => pure (ofFloat (whitenedCosFast n (center x) (center y)))
+  | "cosine_cov_fast" => pure (ofFloat (whitenedCosFastCoded n x y))
+  | "corr_cov_fast" => pure (ofFloat (whitenedCosFastCoded n (center x) (center y)))
   | "bures" => pure (ofFloat (buresSim eighF (kernelRows n x) (kernelRows n y)))
   | "bures_metric" => pure (ofFloat (sqBuresMetric eighF (kernelRows n x) (kernelRows n y)))
   | m => throw s!"unknown method {m}"
@@ -41,7 +41,7 @@ def measureQ (method : String) (x y : List Rat) : R Json :=
   match method with
   | "tau-a" => pure (ofRat (tauA x y))
   | "tau-a-spec" => pure (ofRat (tauASpec x y))
-  | "rho-a" => pure (ofRat (rhoA x y))
+  | "rho-a" => pure (ofRat (rhoACoded x y))
   | m => throw s!"method {m} is not exact"
 
 /-- `compare(x, y, method, sigma_k)`: the whole matrix -/
@@ -61,6 +61,13 @@ def compareOp (j : Json) : R Json := do
     let V := if method = "cosine_cov" ∨ method = "corr_cov" then getV n sg else []
     let rows ← (compareAll (measureF method n V) xs ys).mapM (fun r => r.mapM id)
     pure (ofList (ofList id) rows)
+
+/-- argument checks of `compare`: "ok" or the exception the code raises -/
+def acceptsOp (j : Json) : R Json := do
+  let method ← fld j "method" >>= asStr
+  let lx ← fld j "lx" >>= asNat
+  let ly ← fld j "ly" >>= asNat
+  pure (Json.str (if accepts method lx ly then "ok" else "ValueError"))
 
 /-- `_get_v(n, sigma_k)` exactly, both as coded and as defined -/
 def getvOp (j : Json) : R Json := do
@@ -104,6 +111,7 @@ def handle : Handler := fun op j =>
   match op with
   | "c03.compare" => some (compareOp j)
   | "c03.getv" => some (getvOp j)
+  | "c03.accepts" => some (acceptsOp j)
   | "c03.ranks" => some (ranksOp j)
   | "c03.counts" => some (countsOp j)
   | "c03.solve" => some (solveOp j)
